@@ -1,7 +1,7 @@
 //! C01: after every operation of a history, every reverse lookup of every item.
 use crate::out::Out;
 use crate::rng::Rng;
-use crate::storegen::{apply, gen_history, new_store, obs_counts, obs_forward, obs_stored, observe, GenCfg};
+use crate::storegen::{apply, gen_history, new_store, obs_adaptors, obs_counts, obs_forward, obs_stored, observe, GenCfg};
 use crate::sx::{l, Sx};
 
 pub struct Ctx {}
@@ -28,6 +28,7 @@ impl Ctx {
             outs.extend(observe(&store));
             outs.push(obs_counts(&store));
             outs.push(obs_forward(&store));
+            outs.push(obs_adaptors(&store));
             let mut step = Vec::new();
             for h in 0..store.annotations_len() {
                 if let Some((stored, expanded, kind)) = obs_stored(&store, h) {
